@@ -105,6 +105,17 @@ def build(tier, rnd):
         for ac in ACCESS:
             cases.append(("proto:" + sn, "%s; %s" % (sh, ac), False))
             cases.append(("proto:" + sn, "%s; do %s catch all 0 end" % (sh, ac), False))
+    # failures of the host in forms that are no function calls (found as C13-F22): huge ints rendered for messages / ordered next to text,
+    # keys changed in place after insertion, recursion through prototype cycles and _str_
+    BIG = "def x = 1; for i in range(5000) do x = x * 10 end; "
+    for prog in [BIG + "def m = <<<>>>; m[x]", BIG + "length(<<x, 'a'>>)", BIG + "[1][x]", BIG + "for e in <<x, 'a'>> do e end", BIG + "def [p, q] = <<x, 'a'>>; q", BIG + "x in <<'a', x>>",
+                 BIG + "<<<x => 1, 'a' => 2>>>['b', 0]", BIG + "[e for e in <<x, 'a', 2.5>>] !> length()", BIG + "x == x + 0 and x + 1 > x",
+                 "def k = 'ab'; def m = <<<>>>; m[k] = 1; k[0] = 'x'; for v in m do v end", "def k = [1]; def m = <<<>>>; m[k] = 1; append(k, 2); [v for v in m]",
+                 "def k = [1]; def s = <<k>>; append(k, 2); [k in s, length(s), [e for e in s]]", "def a = <*x = 1*>; def b = <*x = 1*>; a->_proto_ = b; b->_proto_ = a; a in [b]",
+                 "def o = <*_str_ = string*>; for x in <<o, 1>> do x end", "def o = <*a = 1*>; o->s = o; def m = <<<>>>; m[o] = 1; length(m)"]:
+        cases.append(("raw-escape", prog, False))
+        cases.append(("raw-escape", "do %s catch all 'caught' end" % prog, False))
+        cases.append(("raw-escape", "def l_ = []; do %s catch 'ERROR' append(l_, 1) finally append(l_, 2) end; l_" % prog, False))
     # element assignment whose right-hand side shrinks, grows or replaces the very container it assigns to
     for coll in ["[1, 2, 3]", "[1]", "<<<1 => 2, 3 => 4>>>", "'abc'", "<*a = 1*>"]:
         for tgt in ["c[2]", "c[-1]", "c[0]", "c[1]", "c['a']", "c->a"]:
